@@ -468,3 +468,29 @@ META["C17"] = dict(
     },
     assumptions=["the multiple-settings warning is not judged"],
 )
+
+META["C18"] = dict(
+    title="save never destroys data: all-or-nothing on failure, no silent overwrite",
+    level="fault_enumeration",
+    level_text="Fault enumeration on the real save(): scenarios (config loaded from a main file referring to dataclass, JSON "
+    "dataclass, class-spec and inner-parser sub-files, optionally in a sub-directory) x {single-file, multi-file} x overwrite "
+    "on/off x pre-existing target / sub-files / unrelated files with known content. For each scenario a fault-free save and "
+    "one save per fault position: an invalid value at each of 7 keys (top level, dataclass, JSON sub-file, inner parser, class "
+    "init_args), a value of a user-registered type whose serializer raises (top level and inside the inner parser), and an "
+    "injected OSError at the 1st..4th write-open. Oracle: SHA-256 directory snapshots before/after and the audit log of "
+    "write-opens; successful saves are parsed back and compared.",
+    level_note="Trusted: snapshot comparison; injected OSError runs are judged only against 'no existing file modified unless "
+    "overwrite is requested'. Read-only directories are not exercised (checks run as root). Quick samples 5 fault positions per scenario.",
+    shards=g(4, 16),
+    budget=g(40, 240),
+    technique="fault enumeration (invalid value per key, failing serializer, OSError at the k-th write-open) with directory snapshot oracle",
+    rule="a case is (fault kind, fault position, sub-file features, multifile, overwrite, set of pre-existing files); distinct by "
+    "hash; non-trivial = save was called on an accepted configuration.",
+    gates={
+        "mon.saves.none": g(150, 1500), "mon.saves.invalid-value": g(300, 6000), "mon.saves.unserialisable-value": g(80, 1500),
+        "mon.saves.oserror-at-write-open": g(150, 3000), "mon.saved_reparsed": g(80, 800),
+        "st.mode.multifile.overwrite": g(30, 300), "st.mode.multifile.no-overwrite": g(30, 300),
+        "st.mode.single.overwrite": g(20, 200), "st.mode.single.no-overwrite": g(20, 200),
+    },
+    assumptions=["for I/O faults the statement only promises that existing files are not modified without overwrite"],
+)
